@@ -5,7 +5,7 @@
    mitxgraders/stringgrader.py (clean_input, check_response, construct_message, __call__) by translate/strgrader.py;
    Bridge/StrGrader.v ties them to the model the lemmas are proved about.
    T : tables  -- str.lower / str.isspace / re's \d \w per character (oracles; `tables_ok T` is checked by the harness over
-                  all of Unicode on every run).   rm / rf -- re.match / re.fullmatch as oracles (any functions), instantiated
+                  all of Unicode on every run).   rm / rf -- re.match / re.fullmatch as oracles (any functions; rm is unused by the code since 976ea10), rf instantiated
                   by the regex model (parser from pattern text + matcher) where the statement speaks about languages.
    Strings are lists of code points of ANY length; cfg ranges over all configurations (all 16 flag combinations). *)
 From Coq Require Import ZArith QArith List Bool.
@@ -132,20 +132,20 @@ Print Assumptions C18_call_supplies_empty_expect_for_accept_any.
 (* ------------------------------------------------------------------------------------------------ *)
 (* validation_pattern                                                                                *)
 (* ------------------------------------------------------------------------------------------------ *)
-(* whatever re.match is: a submission failing the test `re.match(test_pattern p, cleaned)` is refused as explain_validation
+(* whatever re.fullmatch is: a submission failing the test `re.fullmatch(p, cleaned)` is refused as explain_validation
    prescribes, in accept_any, accept_nonempty and normal mode; one passing it is graded as if there were no pattern *)
 Theorem C18_failed_validation_is_refused_in_every_mode : forall T rm rf cfg p a e s,
   cfg_validation_pattern cfg = Some p ->
-  rm (test_pattern p) (norm T cfg s) = false ->
-  (accept_any_mode cfg = true \/ rm (test_pattern p) (norm T cfg e) = true) ->
+  rf p (norm T cfg s) = false ->
+  (accept_any_mode cfg = true \/ rf p (norm T cfg e) = true) ->
   gcheck T rm rf cfg a e s = refusal cfg (cfg_explain_validation cfg) (cfg_invalid_msg cfg).
 Proof. exact g_validation_refusal. Qed.
 Print Assumptions C18_failed_validation_is_refused_in_every_mode.
 
 Theorem C18_passed_validation_grades_as_without_pattern : forall T rm rf cfg p a e s,
   cfg_validation_pattern cfg = Some p ->
-  rm (test_pattern p) (norm T cfg s) = true ->
-  (accept_any_mode cfg = true \/ rm (test_pattern p) (norm T cfg e) = true) ->
+  rf p (norm T cfg s) = true ->
+  (accept_any_mode cfg = true \/ rf p (norm T cfg e) = true) ->
   gcheck T rm rf cfg a e s = gcheck T rm rf (without_pattern cfg) a e s.
 Proof. exact g_validation_pass. Qed.
 Print Assumptions C18_passed_validation_grades_as_without_pattern.
@@ -156,65 +156,61 @@ Theorem C18_matcher_decides_the_match_relation : forall T r s,
 Proof. exact (fun T r s => conj (re_fullmatch_spec T r s) (re_match_spec T r s)). Qed.
 Print Assumptions C18_matcher_decides_the_match_relation.
 
-(* every pattern of the subset: a submission matched ENTIRELY by the pattern is never refused by validation *)
-Theorem C18_validation_accepts_every_full_match : forall T rf cfg p r a e s,
+(* the re.fullmatch oracle on the pattern text IS membership in the language of the pattern *)
+Theorem C18_fullmatch_on_the_pattern_text_is_the_language : forall T p r x, parse p = Some r ->
+  (re_fullmatch_text T p x = true <-> in_language T r x).
+Proof. exact fullmatch_text_is_language. Qed.
+Print Assumptions C18_fullmatch_on_the_pattern_text_is_the_language.
+
+(* FULL STATEMENT: a validation_pattern must match the ENTIRE cleaned submission, otherwise the response is refused in the
+   way explain_validation prescribes, in every mode -- for every pattern p of the modelled subset (top-level alternation,
+   anchors, groups, classes, quantifiers), parse p = Some r; `in every mode`: accept_any / accept_nonempty, or normal mode
+   with an expected string that the pattern itself matches entirely (otherwise: next theorem).
+   (Before /repo commit 976ea10 this was refuted: "a|b" accepted "ab", "^" accepted anything.) *)
+Theorem C18_validation_fullmatch : forall T rm cfg p r a e s,
   cfg_validation_pattern cfg = Some p -> parse p = Some r ->
   (accept_any_mode cfg = true \/ in_language T r (norm T cfg e)) ->
-  in_language T r (norm T cfg s) ->
-  gcheck T (re_match_text T) rf cfg a e s = gcheck T (re_match_text T) rf (without_pattern cfg) a e s.
-Proof. exact g_validation_accepts_full_matches. Qed.
-Print Assumptions C18_validation_accepts_every_full_match.
+  (~ in_language T r (norm T cfg s) ->
+     gcheck T rm (re_fullmatch_text T) cfg a e s = refusal cfg (cfg_explain_validation cfg) (cfg_invalid_msg cfg)) /\
+  (in_language T r (norm T cfg s) ->
+     gcheck T rm (re_fullmatch_text T) cfg a e s = gcheck T rm (re_fullmatch_text T) (without_pattern cfg) a e s).
+Proof. exact g_validation_fullmatch. Qed.
+Print Assumptions C18_validation_fullmatch.
 
-(* FULL STATEMENT (the property): for every pattern p of the subset with parse p = Some r, in every mode,
-     ~ in_language T r (cleaned submission)  ->  the response is refused as explain_validation prescribes.
-   It is FALSE for the code as written (next three theorems).  What is proved is the statement restricted to patterns
-   without a top-level alternation bar that do not end in "^"; what is missing is exactly the patterns where the "$" the
-   code appends to the pattern TEXT binds to the last alternative only, or is not appended at all. *)
-Theorem C18_validation_fullmatch_partial : forall T rf cfg p r a e s,
-  tables_ok T -> cfg_validation_pattern cfg = Some p -> parse p = Some r ->
-  top_level_alternation p = false -> py_endswith p [94] = false ->
-  (accept_any_mode cfg = true \/ in_language T r (norm T cfg e)) ->
-  ~ in_language T r (norm T cfg s) ->
-  gcheck T (re_match_text T) rf cfg a e s = refusal cfg (cfg_explain_validation cfg) (cfg_invalid_msg cfg).
-Proof. exact g_validation_fullmatch_partial. Qed.
-Print Assumptions C18_validation_fullmatch_partial.
+(* normal mode with an expected string the pattern does not match entirely: an author error (ConfigError) *)
+Theorem C18_expect_outside_the_pattern_is_a_config_error : forall T rm cfg p r a e s,
+  cfg_validation_pattern cfg = Some p -> parse p = Some r -> accept_any_mode cfg = false ->
+  ~ in_language T r (norm T cfg e) ->
+  gcheck T rm (re_fullmatch_text T) cfg a e s = RaiseConfig.
+Proof. exact g_validation_expect_outside_language. Qed.
+Print Assumptions C18_expect_outside_the_pattern_is_a_config_error.
 
-(* pattern "a|b", accept_any, submission "ab": not in the language, yet accepted *)
-Theorem C18_validation_fullmatch_refuted : ~ g_validation_is_fullmatch.
-Proof. exact g_validation_fullmatch_refuted. Qed.
-Print Assumptions C18_validation_fullmatch_refuted.
-
-(* pattern "^", accept_any, submission "x": the pattern ends with "^", no "$" is appended, accepted *)
-Theorem C18_validation_fullmatch_refuted_trailing_caret :
-  exists T cfg p r a e s,
-    tables_ok T /\ cfg_validation_pattern cfg = Some p /\ parse p = Some r /\ accept_any_mode cfg = true /\
-    ~ in_language T r (gclean T cfg s) /\
-    gcheck T (re_match_text T) (re_fullmatch_text T) cfg a e s = Ret (credit_of a).
-Proof. exact g_validation_fullmatch_refuted_trailing_caret. Qed.
-Print Assumptions C18_validation_fullmatch_refuted_trailing_caret.
-
-(* normal mode, pattern "a|b", expect "a", submission "ax", explain_validation = 'err': graded wrong silently instead of
-   the InvalidInput error the property demands *)
-Theorem C18_validation_refusal_refuted_normal_mode :
-  exists T cfg p r a e s,
-    tables_ok T /\ cfg_validation_pattern cfg = Some p /\ parse p = Some r /\ accept_any_mode cfg = false /\
-    in_language T r (gclean T cfg e) /\ ~ in_language T r (gclean T cfg s) /\
-    cfg_explain_validation cfg = ExErr /\
-    gcheck T (re_match_text T) (re_fullmatch_text T) cfg a e s = Ret zero_entry.
-Proof. exact g_validation_refusal_refuted_normal_mode. Qed.
-Print Assumptions C18_validation_refusal_refuted_normal_mode.
-
-(* why: appending "$" to the TEXT anchors the whole pattern only when there is no top-level bar *)
+(* why the code must not append "$" to the pattern TEXT: it anchors the whole pattern only when there is no top-level bar *)
 Theorem C18_dollar_anchors_whole_pattern_without_top_level_bar : forall p r,
   parse p = Some r -> top_level_alternation p = false -> parse (p ++ [36]) = Some (Cat r Eol).
 Proof. exact parse_dollar_no_alternation. Qed.
 Print Assumptions C18_dollar_anchors_whole_pattern_without_top_level_bar.
 
-(* the repair: the re.fullmatch oracle on the un-modified pattern text IS membership in the language *)
-Theorem C18_fullmatch_on_the_pattern_text_is_the_language : forall T p r x, parse p = Some r ->
-  (re_fullmatch_text T p x = true <-> in_language T r x).
-Proof. exact fullmatch_text_is_language. Qed.
-Print Assumptions C18_fullmatch_on_the_pattern_text_is_the_language.
+(* regression: the three witnesses that refuted C18_validation_fullmatch before the repair are now refused with the
+   InvalidInput error ("a|b" vs "ab"; "^" vs "x"; normal mode "a|b", expect "a", submission "ax") *)
+Example C18_regression_alternation_witness :
+  gcheck T_plain (re_match_text T_plain) (re_fullmatch_text T_plain) (cfg_any [97; 124; 98]) inferred_answer [] [97; 98]
+  = RaiseInvalid [98; 97; 100].
+Proof. exact g_regression_alternation. Qed.
+
+Example C18_regression_trailing_caret_witness :
+  gcheck T_plain (re_match_text T_plain) (re_fullmatch_text T_plain) (cfg_any [94]) inferred_answer [] [120]
+  = RaiseInvalid [98; 97; 100].
+Proof. exact g_regression_trailing_caret. Qed.
+
+Example C18_regression_normal_mode_witness :
+  gcheck T_plain (re_match_text T_plain) (re_fullmatch_text T_plain) (cfg_normal [97; 124; 98]) inferred_answer [97] [97; 120]
+  = RaiseInvalid [98; 97; 100]
+  /\ gcheck T_plain (re_match_text T_plain) (re_fullmatch_text T_plain) (cfg_normal [97; 124; 98]) inferred_answer [97] [97]
+  = Ret (credit_of inferred_answer)
+  /\ gcheck T_plain (re_match_text T_plain) (re_fullmatch_text T_plain) (cfg_normal [97; 124; 98]) inferred_answer [97] [98]
+  = Ret zero_entry.
+Proof. exact g_regression_normal_mode. Qed.
 
 (* ------------------------------------------------------------------------------------------------ *)
 (* examples: the hypotheses are satisfiable, the flags matter                                        *)
@@ -247,12 +243,10 @@ Example C18_ex_accept_nonempty :
   /\ gcheck T_plain (re_match_text T_plain) (re_fullmatch_text T_plain) cfg_nonempty inferred_answer [] [120] = Ret (credit_of inferred_answer).
 Proof. exact ex_accept_nonempty. Qed.
 
-Example C18_ex_partial_theorem_applies_to_documented_pattern :
+Example C18_ex_documented_pattern_in_subset :
   exists r, parse [92; 40; 91; 48; 45; 57; 93; 43; 92; 41] = Some r
-            /\ top_level_alternation [92; 40; 91; 48; 45; 57; 93; 43; 92; 41] = false
-            /\ py_endswith [92; 40; 91; 48; 45; 57; 93; 43; 92; 41] [94] = false
             /\ re_fullmatch T_plain r [40; 52; 50; 41] = true /\ re_fullmatch T_plain r [40; 52; 50; 41; 120] = false.
-Proof. exact ex_partial_hypotheses_satisfiable. Qed.
+Proof. exact ex_documented_pattern. Qed.
 
 Example C18_ex_dollar_binds_to_last_alternative :
   parse [97; 124; 98; 36] = Some (Alt (Cat Eps (lit 97)) (Cat (Cat Eps (lit 98)) Eol))
